@@ -33,7 +33,7 @@ def configs_for(mode):
     return cfgs
 
 
-def gen_algo_case(rng, ctx, classes="D1 D2 D3 D3 D4 D5 D6 D7 D8 D9 D10 D10", schemes="S1 S1 S2 S3 S3 S6",
+def gen_algo_case(rng, ctx, classes="D1 D2 D3 D3 D4 D5 D6 D7 D8 D9 D10 D10", schemes="S1 S1 S2 S3 S3 S6 S9 S11",
                   nmax=7, nconf=7):
     cls, ds = gen.dataset(rng, classes=classes, nmax=nmax, mmax=6)
     ds = libx.normalise_raw(ds)
